@@ -492,9 +492,15 @@ def capture_ast() -> dict:
                 and isinstance(node.test, ast.Compare)
                 and any(getattr(c, "attr", None) == "VARIADIC" for c in node.test.comparators)
             ):
-                for sub in ast.walk(node):
-                    if isinstance(sub, ast.Call) and getattr(sub.func, "id", None) == "setattr" and len(sub.args) == 3:
-                        found.append(classify(sub.args[2], {var: "alias"}))
+                env = {var: "alias"}
+                for st in node.body:  # in order, following re-assignments of the local (`value = tuple(value)`)
+                    if isinstance(st, ast.Assign) and len(st.targets) == 1 and isinstance(st.targets[0], ast.Name):
+                        m = classify(st.value, env)
+                        if m != "fresh":
+                            env[st.targets[0].id] = m
+                    for sub in ast.walk(st):
+                        if isinstance(sub, ast.Call) and getattr(sub.func, "id", None) == "setattr" and len(sub.args) == 3:
+                            found.append(classify(sub.args[2], env))
         mode = found[0] if found else "alias"  # no setattr: the caller's list stays in the field
     out["BaseVars.variadic"] = mode
     # module-level constructors
